@@ -148,6 +148,7 @@ RunResult RunNinja(vfs::Disk* d, const RunConfig& cfg, const std::vector<int>& c
   g_cur.cfg = &cfg;
   g_cur.ch = &ch;
   g_cur.waits = 0;
+  g_cur.last_token_wake = false;
   g_cur.edit_done.clear();
 
   ResetNinjaGlobals();
@@ -160,6 +161,7 @@ RunResult RunNinja(vfs::Disk* d, const RunConfig& cfg, const std::vector<int>& c
     if (kv.first == "VERIF_TTY_COLS") { g_tty_cols = atoi(kv.second.c_str()); continue; }
     setenv(kv.first.c_str(), kv.second.c_str(), 1);
   }
+  JsBegin(cfg);
 
   static std::vector<std::string> argstore;
   static std::vector<char*> argv;
@@ -200,6 +202,7 @@ RunResult RunNinja(vfs::Disk* d, const RunConfig& cfg, const std::vector<int>& c
   vfs::ResetInvocation();
   vfs::crash_at = vfs::fail_at = -1;
   res.out = ReadCapture();
+  JsEnd(&res);
   res.choices = ch.taken;
   res.arity = ch.arity;
   res.cost = ch.cost;
